@@ -88,6 +88,9 @@ func runInvstore(in invstoreIn) (out map[string]any) {
 	sort.Strings(keys)
 	out["keys"] = keys
 	loaded, err := inventory.WrapInventoryObj(obj).Load()
+	// object.FromStringMap is the set-level reading of the same map: it must fail / succeed like Load and give the same set
+	fsm, ferr := object.FromStringMap(data)
+	out["fsmSame"] = (ferr != nil) == (err != nil) && (err != nil || fmt.Sprint(sortJids(toJids(fsm))) == fmt.Sprint(sortJids(toJids(loaded))))
 	if err != nil {
 		out["loadErr"] = true
 		return out
